@@ -7,7 +7,6 @@ package c18
 import (
 	"encoding/json"
 	"fmt"
-	"net/url"
 	"reflect"
 	"regexp"
 	"strings"
@@ -48,7 +47,7 @@ func init() {
 	for _, c := range []string{chkRules, chkApply, chkFuzz} {
 		ev.RegisterReplay(c, replay)
 	}
-	ev.Assume("'valid URI' is defined by net/url.ParseRequestURI on a non-empty string (stdlib, not code under test)")
+	ev.Assume("'valid URI' is RFC 3986's URI production (scheme, then unreserved / reserved characters and well-formed percent-encodings), checked by the harness itself")
 	ev.Assume("hangs are judged by a watchdog of 20 s per application (>= 100000x the normal time); fatal crashes by an in-flight journal re-run in a fresh process")
 }
 
@@ -128,12 +127,46 @@ func objectsOf(v interface{}) []map[string]interface{} {
 	return out
 }
 
+// validURI is RFC 3986's "URI" production, checked character by character: scheme ":" hier-part [ "?" query ]
+// [ "#" fragment ] over the unreserved / reserved characters and well-formed percent-encodings. (Independent of
+// net/url: a request target such as "*" or "/path", or text with blanks, is not a URI.)
 func validURI(s string) bool {
-	if s == "" {
+	i := strings.IndexByte(s, ':')
+	if i <= 0 {
 		return false
 	}
-	_, err := url.ParseRequestURI(s)
-	return err == nil
+	for j, c := range s[:i] {
+		letter := (c >= 'a' && c <= 'z') || (c >= 'A' && c <= 'Z')
+		if !(letter || (j > 0 && ((c >= '0' && c <= '9') || c == '+' || c == '-' || c == '.'))) {
+			return false
+		}
+	}
+	rest := s[i+1:]
+	hashes := 0
+	for k := 0; k < len(rest); k++ {
+		c := rest[k]
+		switch {
+		case (c >= 'a' && c <= 'z') || (c >= 'A' && c <= 'Z') || (c >= '0' && c <= '9'):
+		case strings.IndexByte("-._~:/?[]@!$&'()*+,;=", c) >= 0:
+		case c == '#':
+			hashes++
+			if hashes > 1 {
+				return false
+			}
+		case c == '%':
+			if k+2 >= len(rest) || !isHex(rest[k+1]) || !isHex(rest[k+2]) {
+				return false
+			}
+			k += 2
+		default:
+			return false
+		}
+	}
+	return true
+}
+
+func isHex(c byte) bool {
+	return (c >= '0' && c <= '9') || (c >= 'a' && c <= 'f') || (c >= 'A' && c <= 'F')
 }
 
 func keyRules(keys []map[string]interface{}) string {
@@ -430,7 +463,8 @@ func nearMissKey(t *rapid.T) map[string]interface{} {
 
 func nearMissService(t *rapid.T) map[string]interface{} {
 	s := gen.DocService(t, rapid.SampledFrom(gen.SvcIDAlphabet).Draw(t, "svcId"))
-	bad := rapid.SampledFrom([]string{"", "not a uri", "://x", "relative/path", "http//missing-colon", "#frag", " https://lead.space", "\x7f"}).Draw(t, "badURI")
+	bad := rapid.SampledFrom([]string{"", "not a uri", "://x", "relative/path", "http//missing-colon", "#frag", " https://lead.space", "\x7f",
+		"*", "/", "//", "/abs/path", "/ <>", "?q=1", "x:y z", "http://example.com/a b", "http://example.com/<x>", "http://example.com/\"q\"", "1http://x.example", "http://a.example/%zz", "http://a.example/%4", "http://a.example/\u00fc", "http://a.example/#a#b", "http://a.example/{x}", "http://a.example/a|b", "http://a.example/a\\b", "http://a.example/^"}).Draw(t, "badURI")
 	switch rapid.IntRange(0, 12).Draw(t, "svcDefect") {
 	case 0:
 		s["id"] = rapid.SampledFrom([]string{"", strings.Repeat("s", 51), "a b", "s/1", strings.Repeat("s", 50), "s" + string(rune(rapid.IntRange(0, 0x17f).Draw(t, "idChar")))}).Draw(t, "badId")
